@@ -91,6 +91,7 @@ func init() {
 		})
 	})
 	add("CopyTable", 0, 0, 0, 0, "CopyTable()")
+	add("EnterNested", 0, 0, 0, 0, "AddNestedTable(0,0,2x2): the history continues on the handle the call returned")
 	names := make([]string, len(c09Ops))
 	for i, o := range c09Ops {
 		names[i] = o.name
@@ -121,6 +122,9 @@ type c09Inst struct {
 	// document); the original is kept and must never change again
 	orig     *document.Table
 	origDump string
+	// after an EnterNested step the history continues on the handle AddNestedTable returned; the table the
+	// parent hands out for that cell must stay the very same table
+	parent *document.Table
 }
 
 type c09Cell struct {
@@ -306,8 +310,11 @@ func (i *c09Inst) Enabled(op int) bool {
 			return false
 		}
 	}
-	if o.kind == "CopyTable" && i.orig != nil {
+	if o.kind == "CopyTable" && (i.orig != nil || i.parent != nil) {
 		return false
+	}
+	if o.kind == "EnterNested" {
+		return i.parent == nil && i.orig == nil && len(i.t.Rows) > 0 && len(i.t.Rows[0].Cells) > 0
 	}
 	R := len(i.t.Rows)
 	C := c09Snapshot(i.t).maxCols()
@@ -644,8 +651,43 @@ func (i *c09Inst) sig(clause string, o c09Op, class, extra string) string {
 }
 
 func (i *c09Inst) Apply(op int) (string, []rep.Violation) {
+	out, viol := i.apply0(op)
+	if i.parent != nil {
+		viol = append(viol, i.checkNestedHandle(c09Ops[op].kind)...)
+	}
+	return out, viol
+}
+
+// checkNestedHandle: what the parent table holds in cell (0,0) is the table the caller's handle shows.
+func (i *c09Inst) checkNestedHandle(kind string) []rep.Violation {
+	var held []document.Table
+	var err error
+	if p := guard(func() { held, err = i.parent.GetNestedTables(0, 0) }); p != "" || err != nil || len(held) == 0 {
+		return []rep.Violation{{Sig: "W8-nested-handle|parent-has-no-nested-table|after=" + kind, Clause: "W8", What: fmt.Sprintf("after %s on the handle AddNestedTable returned, the parent cell (0,0) holds no nested table (%v %v)", kind, p, err)}}
+	}
+	a, _ := json.Marshal(&held[len(held)-1])
+	b, _ := json.Marshal(i.t)
+	if string(a) != string(b) {
+		return []rep.Violation{{Sig: "W8-nested-handle|detached|after=" + kind, Clause: "W8", What: fmt.Sprintf("after %s on the handle AddNestedTable returned, the nested table the parent cell holds differs from the handle: the handle is not the table in the document", kind)}}
+	}
+	return nil
+}
+
+func (i *c09Inst) apply0(op int) (string, []rep.Violation) {
 	o := c09Ops[op]
 	i.lastNT = false
+	if o.kind == "EnterNested" {
+		var h *document.Table
+		var err error
+		if p := guard(func() {
+			h, err = i.t.AddNestedTable(0, 0, &document.TableConfig{Rows: 2, Cols: 2, Width: 2000, Data: [][]string{{"e00", "e01"}, {"e10", "e11"}}})
+		}); p != "" || err != nil || h == nil {
+			return "error", nil // the call itself is judged by the AddNestedTable operation
+		}
+		i.parent, i.t = i.t, h
+		i.lastNT = true
+		return "entered", nil
+	}
 	if o.kind == "seed" {
 		document.VerifResetGlobals()
 		s := c09Seeds[o.a]
@@ -1048,6 +1090,14 @@ func (i *c09Inst) Key() string {
 	if i.orig != nil {
 		b.WriteString("copy;")
 	}
+	if i.parent != nil {
+		// the handle's relation to the table the parent holds is part of the state
+		same := "same"
+		if len(i.checkNestedHandle("")) > 0 {
+			same = "detached"
+		}
+		b.WriteString("nested-handle-" + same + ";")
+	}
 	fmt.Fprintf(&b, "g%d;", s.Grid)
 	for _, r := range s.Rows {
 		for _, c := range r {
@@ -1088,7 +1138,21 @@ func (i *c09Inst) Deep() []rep.Violation {
 	if len(tbls) != 1 {
 		return []rep.Violation{{Sig: "saved-table-count", Clause: "save", What: fmt.Sprint(len(tbls))}}
 	}
-	s := xmlTableSnap(tbls[0])
+	saved := tbls[0]
+	if i.parent != nil {
+		// the table under edit is the last nested table of the parent's first cell
+		var nt []*pkgmodel.Node
+		if trs := saved.Children(pkgmodel.NsW, "tr"); len(trs) > 0 {
+			if tcs := trs[0].Children(pkgmodel.NsW, "tc"); len(tcs) > 0 {
+				nt = tcs[0].Children(pkgmodel.NsW, "tbl")
+			}
+		}
+		if len(nt) == 0 {
+			return []rep.Violation{{Sig: "saved-nested-table-missing|" + class, Clause: "save", What: "the nested table added to cell (0,0) is not in the saved w:tbl"}}
+		}
+		saved = nt[len(nt)-1]
+	}
+	s := xmlTableSnap(saved)
 	var out []rep.Violation
 	for _, p := range s.invariants() {
 		already := false
